@@ -14,9 +14,30 @@ use crate::api::filesystem::{
     ListxattrReply, ZeroCopyReader, ZeroCopyWriter,
 };
 use crate::transport::ghost;
+pub use super::verif_koff::*;
 use crate::transport::{FuseBuf, FuseDevWriter, Reader, Writer};
 
 pub fn noop() {}
+
+/// Stub for `CStr::from_bytes_with_nul`: std's body verbatim with `memchr::memchr(0, bytes)`
+/// replaced by its specification (index of the first 0 byte, naive loop).  std's memchr switches
+/// to a word-at-a-time scan based on pointer alignment, which CBMC can only treat as nondet.
+pub fn cstr_from_bytes_with_nul(bytes: &[u8]) -> std::result::Result<&CStr, std::ffi::FromBytesWithNulError> {
+    let mut i = 0;
+    let mut pos = None;
+    while i < bytes.len() {
+        if bytes[i] == 0 {
+            pos = Some(i);
+            break;
+        }
+        i += 1;
+    }
+    match pos {
+        Some(p) if p + 1 == bytes.len() => Ok(unsafe { CStr::from_bytes_with_nul_unchecked(bytes) }),
+        Some(position) => Err(std::ffi::FromBytesWithNulError::InteriorNul { position }),
+        None => Err(std::ffi::FromBytesWithNulError::NotNulTerminated),
+    }
+}
 pub fn empty_string(_: std::fmt::Arguments<'_>) -> String {
     String::new()
 }
@@ -154,6 +175,34 @@ pub struct Script {
 }
 
 pub static mut SCRIPT: Option<Script> = None;
+// size/shape knobs are mirrored into scalar statics: read back through Option<Script> they lose
+// their constness in CBMC and every copy becomes a symbolic-size memcpy (measured: 35M variables)
+pub static mut KN_BYTES_LEN: usize = 0;
+pub static mut KN_REPLY_COUNT: bool = false;
+pub static mut KN_NENT: usize = 0;
+pub static mut KN_ENT_NAMELEN: usize = 0;
+
+pub fn set_script(sc: Script) {
+    unsafe {
+        KN_BYTES_LEN = sc.bytes_len;
+        KN_REPLY_COUNT = sc.reply_count;
+        KN_NENT = sc.nent;
+        KN_ENT_NAMELEN = sc.ent_namelen;
+        SCRIPT = Some(sc);
+    }
+}
+pub fn kn_bytes_len() -> usize {
+    unsafe { KN_BYTES_LEN }
+}
+pub fn kn_reply_count() -> bool {
+    unsafe { KN_REPLY_COUNT }
+}
+pub fn kn_nent() -> usize {
+    unsafe { KN_NENT }
+}
+pub fn kn_ent_namelen() -> usize {
+    unsafe { KN_ENT_NAMELEN }
+}
 
 pub fn zero_stat() -> stat64 {
     unsafe { std::mem::zeroed() }
@@ -448,7 +497,7 @@ impl FileSystem for SymFs {
         if let Some(e) = fail() {
             return Err(e);
         }
-        Ok(script().bytes[..script().bytes_len].to_vec())
+        Ok(script().bytes[..kn_bytes_len()].to_vec())
     }
 
     fn symlink(&self, ctx: &Context, linkname: &CStr, parent: u64, name: &CStr) -> io::Result<Entry> {
@@ -612,7 +661,7 @@ impl FileSystem for SymFs {
         }
         // an honest filesystem: produce min(bytes_len, size, space) bytes and report that count
         let s = script();
-        let mut n = s.bytes_len;
+        let mut n = kn_bytes_len();
         if n > size as usize {
             n = size as usize;
         }
@@ -767,10 +816,10 @@ impl FileSystem for SymFs {
             return Err(e);
         }
         let s = script();
-        if s.reply_count {
+        if kn_reply_count() {
             Ok(GetxattrReply::Count(s.v32))
         } else {
-            Ok(GetxattrReply::Value(s.bytes[..s.bytes_len].to_vec()))
+            Ok(GetxattrReply::Value(s.bytes[..kn_bytes_len()].to_vec()))
         }
     }
 
@@ -781,10 +830,10 @@ impl FileSystem for SymFs {
             return Err(e);
         }
         let s = script();
-        if s.reply_count {
+        if kn_reply_count() {
             Ok(ListxattrReply::Count(s.v32))
         } else {
-            Ok(ListxattrReply::Names(s.bytes[..s.bytes_len].to_vec()))
+            Ok(ListxattrReply::Names(s.bytes[..kn_bytes_len()].to_vec()))
         }
     }
 
@@ -828,12 +877,12 @@ impl FileSystem for SymFs {
         let s = script();
         let mut i = 0;
         let mut delivered = 0u64;
-        while i < s.nent {
+        while i < kn_nent() {
             let d = DirEntry {
                 ino: s.ent_ino,
                 offset: s.ent_off,
                 type_: s.ent_type,
-                name: &s.bytes[..s.ent_namelen],
+                name: &s.bytes[..kn_ent_namelen()],
             };
             match add_entry(d) {
                 Ok(0) => break,
@@ -867,12 +916,12 @@ impl FileSystem for SymFs {
         let s = script();
         let mut i = 0;
         let mut delivered = 0u64;
-        while i < s.nent {
+        while i < kn_nent() {
             let d = DirEntry {
                 ino: s.ent_ino,
                 offset: s.ent_off,
                 type_: s.ent_type,
-                name: &s.bytes[..s.ent_namelen],
+                name: &s.bytes[..kn_ent_namelen()],
             };
             match add_entry(d, s.entry) {
                 Ok(0) => break,
@@ -1033,10 +1082,10 @@ impl FileSystem for SymFs {
         let s = script();
         Ok(IoctlData {
             result: s.ioctl_result,
-            data: if s.reply_count {
+            data: if kn_reply_count() {
                 None
             } else {
-                Some(&s.bytes[..s.bytes_len])
+                Some(&s.bytes[..kn_bytes_len()])
             },
         })
     }
@@ -1224,33 +1273,158 @@ pub fn check_ctx(method: u32, nodeid: u64, uid: u32, gid: u32, pid: u32) {
     }
 }
 
-/// kernel layout of fuse_attr inside a reply at `base` vs a stat64 (C03)
+/// kernel layout of fuse_attr (offsets from the C oracle) inside a reply at `base` vs a stat64 (C03)
 pub fn check_attr(b: &[u8], base: usize, st: &stat64, flags: u32) {
-    assert!(get64(b, base) == st.st_ino, "[C03] attr.ino");
-    assert!(get64(b, base + 8) == st.st_size as u64, "[C03] attr.size");
-    assert!(get64(b, base + 16) == st.st_blocks as u64, "[C03] attr.blocks");
-    assert!(get64(b, base + 24) == st.st_atime as u64, "[C03] attr.atime");
-    assert!(get64(b, base + 32) == st.st_mtime as u64, "[C03] attr.mtime");
-    assert!(get64(b, base + 40) == st.st_ctime as u64, "[C03] attr.ctime");
-    assert!(get32(b, base + 48) == st.st_atime_nsec as u32, "[C03] attr.atimensec");
-    assert!(get32(b, base + 52) == st.st_mtime_nsec as u32, "[C03] attr.mtimensec");
-    assert!(get32(b, base + 56) == st.st_ctime_nsec as u32, "[C03] attr.ctimensec");
-    assert!(get32(b, base + 60) == st.st_mode, "[C03] attr.mode");
-    assert!(get32(b, base + 64) == st.st_nlink as u32, "[C03] attr.nlink");
-    assert!(get32(b, base + 68) == st.st_uid, "[C03] attr.uid");
-    assert!(get32(b, base + 72) == st.st_gid, "[C03] attr.gid");
-    assert!(get32(b, base + 76) == st.st_rdev as u32, "[C03] attr.rdev");
-    assert!(get32(b, base + 80) == st.st_blksize as u32, "[C03] attr.blksize");
-    assert!(get32(b, base + 84) == flags, "[C03] attr.flags");
+    assert!(get64(b, base + K_ATTR__INO) == st.st_ino, "[C03] attr.ino");
+    assert!(get64(b, base + K_ATTR__SIZE) == st.st_size as u64, "[C03] attr.size");
+    assert!(get64(b, base + K_ATTR__BLOCKS) == st.st_blocks as u64, "[C03] attr.blocks");
+    assert!(get64(b, base + K_ATTR__ATIME) == st.st_atime as u64, "[C03] attr.atime");
+    assert!(get64(b, base + K_ATTR__MTIME) == st.st_mtime as u64, "[C03] attr.mtime");
+    assert!(get64(b, base + K_ATTR__CTIME) == st.st_ctime as u64, "[C03] attr.ctime");
+    assert!(get32(b, base + K_ATTR__ATIMENSEC) == st.st_atime_nsec as u32, "[C03] attr.atimensec");
+    assert!(get32(b, base + K_ATTR__MTIMENSEC) == st.st_mtime_nsec as u32, "[C03] attr.mtimensec");
+    assert!(get32(b, base + K_ATTR__CTIMENSEC) == st.st_ctime_nsec as u32, "[C03] attr.ctimensec");
+    assert!(get32(b, base + K_ATTR__MODE) == st.st_mode, "[C03] attr.mode");
+    assert!(get32(b, base + K_ATTR__NLINK) == st.st_nlink as u32, "[C03] attr.nlink");
+    assert!(get32(b, base + K_ATTR__UID) == st.st_uid, "[C03] attr.uid");
+    assert!(get32(b, base + K_ATTR__GID) == st.st_gid, "[C03] attr.gid");
+    assert!(get32(b, base + K_ATTR__RDEV) == st.st_rdev as u32, "[C03] attr.rdev");
+    assert!(get32(b, base + K_ATTR__BLKSIZE) == st.st_blksize as u32, "[C03] attr.blksize");
+    assert!(get32(b, base + K_ATTR__FLAGS) == flags, "[C03] attr.flags carries the entry's attribute flags");
 }
 
 /// kernel layout of fuse_entry_out at `base` vs an Entry (C03)
 pub fn check_entry(b: &[u8], base: usize, e: &Entry) {
-    assert!(get64(b, base) == e.inode, "[C03] entry.nodeid");
-    assert!(get64(b, base + 8) == e.generation, "[C03] entry.generation");
-    assert!(get64(b, base + 16) == e.entry_timeout.as_secs(), "[C03] entry.entry_valid");
-    assert!(get64(b, base + 24) == e.attr_timeout.as_secs(), "[C03] entry.attr_valid");
-    assert!(get32(b, base + 32) == e.entry_timeout.subsec_nanos(), "[C03] entry.entry_valid_nsec");
-    assert!(get32(b, base + 36) == e.attr_timeout.subsec_nanos(), "[C03] entry.attr_valid_nsec");
-    check_attr(b, base + 40, &e.attr, e.attr_flags);
+    assert!(get64(b, base + K_ENTRY_OUT__NODEID) == e.inode, "[C03] entry.nodeid");
+    assert!(get64(b, base + K_ENTRY_OUT__GENERATION) == e.generation, "[C03] entry.generation");
+    assert!(get64(b, base + K_ENTRY_OUT__ENTRY_VALID) == e.entry_timeout.as_secs(), "[C03] entry.entry_valid");
+    assert!(get64(b, base + K_ENTRY_OUT__ATTR_VALID) == e.attr_timeout.as_secs(), "[C03] entry.attr_valid");
+    assert!(get32(b, base + K_ENTRY_OUT__ENTRY_VALID_NSEC) == e.entry_timeout.subsec_nanos(), "[C03] entry.entry_valid_nsec");
+    assert!(get32(b, base + K_ENTRY_OUT__ATTR_VALID_NSEC) == e.attr_timeout.subsec_nanos(), "[C03] entry.attr_valid_nsec");
+    check_attr(b, base + K_ENTRY_OUT__ATTR_INO, &e.attr, e.attr_flags);
+}
+
+// ---------------------------------------------------------------- direct handler driver
+pub type Srv = Server<Arc<SymFs>>;
+pub type Ctx<'a> = SrvContext<'a, Arc<SymFs>, ()>;
+
+/// arbitrary in-header as the handlers see it (already decoded by handle_message)
+pub fn any_hdr(opcode: u32) -> InHeader {
+    InHeader {
+        len: kani::any(),
+        opcode,
+        unique: kani::any(),
+        nodeid: kani::any(),
+        uid: kani::any(),
+        gid: kani::any(),
+        pid: kani::any(),
+        padding: kani::any(),
+    }
+}
+
+/// fully symbolic filesystem answer
+pub fn any_script() -> Script {
+    let mut sc = default_script();
+    sc.err = if kani::any() { 0 } else { any_err_code(true) };
+    sc.entry = any_entry();
+    sc.st = any_stat();
+    sc.dur = any_duration();
+    sc.handle = if kani::any() { Some(kani::any()) } else { None };
+    sc.opts = kani::any();
+    sc.passthrough = if kani::any() { Some(kani::any()) } else { None };
+    sc.v64 = kani::any();
+    sc.v32 = kani::any();
+    sc.lock = FsFileLock { start: kani::any(), end: kani::any(), lock_type: kani::any(), pid: kani::any() };
+    sc.ent_ino = kani::any();
+    sc.ent_off = kani::any();
+    sc.ent_type = kani::any();
+    sc.ioctl_result = kani::any();
+    sc
+}
+
+/// p: 1 = C01 assertions, 2 = C02, 3 = C03.  C02 scripts a plain success so that only the
+/// request decoding is under test; C01/C03 script an arbitrary answer.
+pub fn script_for(p: u8) -> Script {
+    if p == 2 {
+        default_script()
+    } else {
+        any_script()
+    }
+}
+
+/// Run one handler of the real server on (hdr, body) with a reply buffer `wbuf`.
+pub fn drive<F>(hdr: InHeader, body: &mut [u8], wbuf: &mut [u8], dev_refuses: bool, script: Script, f: F) -> crate::Result<usize>
+where
+    F: FnOnce(&Srv, Ctx<'_>) -> crate::Result<usize>,
+{
+    set_script(script);
+    reset_log();
+    ghost::reset(dev_refuses);
+    let server = new_server();
+    let r = Reader::<()>::from_fuse_buffer(FuseBuf::new(body)).unwrap();
+    let w = FuseDevWriter::<()>::new(7, wbuf).unwrap();
+    let ctx = SrvContext::<Arc<SymFs>, ()>::new(hdr, r, w.into());
+    let res = f(&server, ctx);
+    std::mem::forget(server);
+    res
+}
+
+pub fn sc() -> &'static Script {
+    unsafe { SCRIPT.as_ref().unwrap() }
+}
+
+pub fn calls() -> u32 {
+    unsafe { LOG.calls }
+}
+
+/// C02 for the direct handler harnesses: one operation call, the right one, node id and caller
+/// ids as encoded (the id translation is done by handle_message and checked in the dispatcher
+/// harnesses).
+pub fn check_call(method: u32, hdr: &InHeader) {
+    unsafe {
+        assert!(LOG.calls == 1, "[C02] exactly one filesystem operation per request");
+        assert!(LOG.method == method, "[C02] the operation the opcode denotes is the one invoked");
+        assert!(LOG.ino == hdr.nodeid, "[C02] node id as encoded");
+        assert!(LOG.uid == hdr.uid && LOG.gid == hdr.gid && LOG.pid == hdr.pid as i32, "[C02] caller ids as encoded");
+        assert!(LOG.remaps == 0, "[C02] no other filesystem operation");
+    }
+}
+
+/// C03: generic shape of the reply to a scripted answer: error -> bare header with -errno,
+/// success -> header + `body_len` bytes, error 0.  Returns true if a success body is present.
+pub fn check_reply_shape(body_len: usize) -> bool {
+    let s = sc();
+    if !emitted() {
+        return false;
+    }
+    if s.err != 0 {
+        assert!(reply_error() == -expected_errno(s.err), "[C03] an error is sent as its negated errno");
+        assert!(reply_len() == K_OUT_HEADER_SIZE, "[C03] an error reply is a bare header");
+        false
+    } else {
+        assert!(reply_error() == 0, "[C03] success is sent with error 0");
+        assert!(reply_len() == K_OUT_HEADER_SIZE + body_len, "[C03] success reply has the size of the opcode's reply structure");
+        true
+    }
+}
+
+/// C01: post-conditions every handler run must satisfy.
+/// `wellformed`: the request is complete; `wants_reply`: protocol requires an answer;
+/// `room`: the reply buffer can hold the largest possible answer of this opcode.
+pub fn check_c01(hdr: &InHeader, res: &crate::Result<usize>, wellformed: bool, wants_reply: bool, room: bool, dev_refuses: bool) {
+    check_reply_stream(hdr.unique);
+    unsafe {
+        if !wants_reply {
+            assert!(ghost::DEV.events == 0, "[C01] no reply is ever produced for this opcode");
+        }
+        if wellformed && wants_reply && room {
+            assert!(ghost::DEV.events == 1, "[C01] a well-formed request that requires an answer gets exactly one reply");
+            if !dev_refuses {
+                assert!(res.is_ok(), "[C01] handler reports success after replying");
+            }
+        }
+        if dev_refuses && ghost::DEV.events == 1 {
+            assert!(res.is_err(), "[C01] a refused device write is reported to the caller");
+        }
+    }
 }
